@@ -63,6 +63,11 @@ func dkgScenario(g *gen.G) *sim.Sim {
 		}
 		s.Template, s.Victim, s.Wildcard = true, hon[g.Pick("victim", len(hon))], g.Int("wildcard", 0, 3*n+8)
 		g.Class("template:oneVictimOneWildcard")
+		if !s.KnownF5 && g.Chance("victimEarlyAnswer", 1, 3) {
+			s.VictimEarlyAnswer, s.EarlyAnswerRound = 1+g.Int("earlyAnswerWrong", 0, 1), g.Int("earlyAnswerRound", 1, 2)
+			s.VectorLast = g.Chance("vectorLast", 1, 3)
+			g.Class("template:dealerAnswersForVictimUnasked")
+		}
 	}
 	// accuse template: Byzantine participants raise groundless complaints against honest dealers at generated points of
 	// rounds 1 and 2 (what an honest dealer under accusation may be blamed for is the subject of C08)
